@@ -748,6 +748,12 @@ func (c *Conn) write(b []byte) (int, error) {
 
 	if len(c.writeList) == 0 {
 		n, err := c.doWrite(b)
+		for errors.Is(err, syscall.EINTR) {
+			// interrupted before anything was written: try again. Caching the
+			// data instead would wait for a writing event that an edge-triggered
+			// poller never reports for a socket that has been writable all along.
+			n, err = c.doWrite(b)
+		}
 		if err != nil &&
 			!errors.Is(err, syscall.EINTR) &&
 			!errors.Is(err, syscall.EAGAIN) {
@@ -788,6 +794,10 @@ func (c *Conn) writev(in [][]byte) (int, error) {
 	}
 
 	nwrite, err := writev(c, in)
+	for errors.Is(err, syscall.EINTR) {
+		// interrupted before anything was written: try again (see write).
+		nwrite, err = writev(c, in)
+	}
 	if errors.Is(err, syscall.EINTR) || errors.Is(err, syscall.EAGAIN) {
 		// nothing could be written now: cache everything, as write does.
 		nwrite, err = 0, nil
